@@ -44,7 +44,9 @@ impl DecimalParser {
 
     pub fn parse_decimal128(self, buffer: &mut [u8], s: &[u8]) -> Result<i128> {
         let (s, sign) = parse_sign(s);
-        let val: i128 = self.copy_digits(buffer, s)?.parse()?;
+        let digits = self.copy_digits(buffer, s)?;
+        // no digit is kept if all of them are finer than the scale: the value truncates to zero
+        let val: i128 = if digits.is_empty() { 0 } else { digits.parse()? };
         let val = sign.apply_i128(val);
         Ok(val)
     }
